@@ -38,12 +38,14 @@ def outcome? (c : Char) : Option Outcome :=
 /-- `c` plain call; `z` zero deadline; `n`/`s`/`l` a 1 ns / short / long deadline (in virtual time
 the answer of a reachable peer comes first: an ordinary call); `i`/`j` unary / server-streaming
 call that is in flight when the peer drops the connection; `d`/`g` the peer drops the connection.
-`zeroAll`: `Endpoint::timeout(0)` makes every call a zero-deadline call. -/
+`p` two callers at the same moment. `zeroAll`: `Endpoint::timeout(0)` makes every call a
+zero-deadline call. -/
 def opZ? (zeroAll : Bool) (c : Char) : Option Op :=
   if c = 'd' ∨ c = 'g' then some .die
   else if c = 'z' then some .callZero
   else if c = 'c' ∨ c = 'n' ∨ c = 's' ∨ c = 'l' then some (if zeroAll then .callZero else .call)
   else if c = 'i' ∨ c = 'j' then some (if zeroAll then .callZero else .callDie)
+  else if c = 'p' ∧ !zeroAll then some .pair
   else none
 
 def op? (c : Char) : Option Op := opZ? false c
@@ -157,8 +159,34 @@ def buildTok (t : Trace) : String :=
   | .error code att => s!"build:err{code}:{fTok att}:a{t.buildAttempts}"
   | .hang => s!"build:hang:a{t.buildAttempts}"
 
+def resTok' : CallRes → String
+  | .resp c => s!"resp{c}"
+  | .error code att => s!"err{code}:{fTok att}"
+  | .hang => "hang"
+  | .panic => "panic"
+  | .garbled => "garbled"
+  | .expired => "exp"
+  | .lost c => s!"lost{c}"
+
+def parseRes' (t : String) : Option CallRes :=
+  if t = "hang" then some .hang
+  else if t = "panic" then some .panic
+  else if t = "garbled" then some .garbled
+  else if t = "exp" then some .expired
+  else match t.splitOn ":" with
+    | [e, f] =>
+      match natAfter "err" e, (if f = "f?" then some none else (natAfter "f" f).map some) with
+      | some code, some att => some (.error code att)
+      | _, _ => none
+    | [w] =>
+      match natAfter "lost" w with
+      | some c => some (.lost c)
+      | none => (natAfter "resp" w).map .resp
+    | _ => none
+
 def evTok : Ev → String
   | .die => "d"
+  | .pair ra rb a => s!"p={resTok' ra}={resTok' rb}=a{a}"
   | .call (.resp c) a => s!"c:resp{c}:a{a}"
   | .call (.error code att) a => s!"c:err{code}:{fTok att}:a{a}"
   | .call .hang a => s!"c:hang:a{a}"
@@ -182,6 +210,13 @@ def parseBuild (t : String) : Option (BuildRes × Nat) :=
 
 def parseEv (t : String) : Option Ev :=
   if t = "d" then some .die
+  else if (stripPre "p=" t).isSome then
+    match t.splitOn "=" with
+    | [_, ra, rb, a] =>
+      match parseRes' ra, parseRes' rb, natAfter "a" a with
+      | some ra, some rb, some a => some (.pair ra rb a)
+      | _, _, _ => none
+    | _ => none
   else match t.splitOn ":" with
     | ["c", what, a] =>
       match natAfter "a" a with
@@ -425,9 +460,11 @@ def handle (case obs : List String) : String × String :=
       | _, _ => bad
     | _, _ => bad
   | ["e2d", m, et, outsS, opsS] =>
-    if et ≠ "-" ∧ et ≠ "z" ∧ et ≠ "n" ∧ et ≠ "s" ∧ et ≠ "l" then bad else
+    -- Endpoint options: z/n/s/l = Endpoint::timeout(0 / 1 ns / short / long), q = concurrency_limit(1),
+    -- r = rate_limit; `-` = none. Only a zero timeout changes what callers may see.
+    if et ≠ "-" ∧ !(et.toList.all fun c => c = 'z' ∨ c = 'n' ∨ c = 's' ∨ c = 'l' ∨ c = 'q' ∨ c = 'r') then bad else
     match mode? m, parseAll (fun s => (s.toList.head?).bind outcome?) ((chars outsS).map (String.singleton ·)),
-          parseAll (fun s => (s.toList.head?).bind (opZ? (et = "z"))) ((chars opsS).map (String.singleton ·)) with
+          parseAll (fun s => (s.toList.head?).bind (opZ? (et.toList.contains 'z'))) ((chars opsS).map (String.singleton ·)) with
     | some isLazy, some outs, some ops =>
       let t := E2E.run true isLazy outs ops
       let model := String.intercalate " " (buildTok t :: t.evs.map evTok)
